@@ -1242,7 +1242,16 @@ def run_u(scn, ch, log=False):
                 kw = {"client_max_size": rcms, "max_size_error_cls": TooBig}
             else:
                 rcms = None
-            reader = MultipartReader(CIMultiDict({"Content-Type": ctype}), stream, **kw)
+            try:
+                reader = MultipartReader(CIMultiDict({"Content-Type": ctype}), stream, **kw)
+            except Exception as e:
+                # the Content-Type is the writer's own (no mode mutates it): a reader that cannot even be
+                # built for it refuses what the writer produced
+                if _frame_of(e) == "?":
+                    raise
+                reader = None
+                violate("roundtrip_no_error", f"reader_refuses_writer_content_type:{type(e).__name__}@{_frame_of(e)}",
+                        f"MultipartReader could not be constructed for the writer's own Content-Type {ctype!r}: {e!r}")
             st = {"i": 0, "fed": 0, "waiting": False, "eof_fed": False, "maxseg": max(pieces, default=0)}
             feed_eof = scn.get("eof", True)
             jitter = scn.get("jitter")
@@ -1345,7 +1354,9 @@ def run_u(scn, ch, log=False):
             loop.sim_call_later(0, producer_step)
             step_bound = loop.steps + 2000 + 6 * len(body) + 40 * len(pieces)
             try:
-                t = loop.run_sim(main(), vt_cap=loop.time() + 60.0 + 0.003 * len(pieces), step_cap=step_bound)
+                t = None
+                if reader is not None:
+                    t = loop.run_sim(main(), vt_cap=loop.time() + 60.0 + 0.003 * len(pieces), step_cap=step_bound)
             except ReaderLoop as e:
                 t = None
                 violate("termination", f"read_calls_exceed_linear_bound:{e}",
